@@ -18,15 +18,16 @@ package ez
 //@ extern func tagformat.NewTagReformattingMangler(tag, dec, enc) (m)
 //@   ensures m != nil && fresh(m)
 //@ extern func file.NewSource(path, dec) (s, err)
-//@   ensures err == nil ==> s != nil
+//@   ensures err == nil ==> s != nil && fresh(s)
 //@ extern func file.NewWatchingSource(path, dec) (s, err)
-//@   ensures err == nil ==> s != nil
+//@   ensures err == nil ==> s != nil && fresh(s)
 
 //@ func ez.fileSource(cfgPath, decoder, watch) (src, err)
 //@   props C18
 //@   safety C16
 //@   flag record fileSource
 //@   ensures C18_file_source_or_error: (err == nil) <==> (src != nil)
+//@   ensures C18_file_source_is_new: err == nil ==> fresh(pay(src))
 
 // The typestate of the entry point: Config with (blank, env, flags) under delayed verification and
 // suppressed global callbacks; the file path is read from that first view; SetSource (blocking) strictly
